@@ -4,13 +4,15 @@ Programs are re-generated from /repo on every run (C01-style expression programs
 variables, C07-style packet accesses under a size guard, hash-map variables and Dict programs, ktime/prandom,
 subprograms, control flow, the library's own dispatcher and fast sync groups with the bundled devices).
 Property oracle: `bpf(BPF_PROG_LOAD)` of the real kernel must accept what the generator accepted (the verifier log
-is the observed evidence).  Model: `Ebv.MiniV.accepts` (Lean) must accept the same programs (regenerated
+is the observed evidence).  Companion oracle for the generator's own check of constant shift counts / divisors (added with the
+repair of the former findings const-shift-ge-width / const-div-zero): a program refused for that reason is re-generated without the
+check and must contain an instruction the verifier's rule forbids and be refused by the kernel (no over-rejection).  Model: `Ebv.MiniV.accepts` (Lean) must accept the same programs (regenerated
 obligations) and must agree with the kernel on single-instruction mutants for the modelled rules."""
 import os
 import re
 import struct
 
-from .. import dsl, fsim, kern, progs
+from .. import core, dsl, fsim, kern, progs
 from . import c07, c09
 
 ID = "C05"
@@ -45,8 +47,9 @@ class _Spy:
     temporary of `get_free_register`, or the destination of an assignment that emitted no write (`w5 = w5`).
     hash_r0_live: a hash-map variable is read while r0 is owned."""
 
-    def __init__(self, notes):
+    def __init__(self, notes, unguard=False):
         self.notes = notes
+        self.unguard = unguard          # emit what the generator would emit without its own check of constant shifts/divisors
 
     def __enter__(self):
         from ebpfcat import ebpf as E
@@ -56,6 +59,9 @@ class _Spy:
         self.D = HashGlobalVarDesc
         self.saved = (E.Register.calculate, HashGlobalVar.get_address, E.RegisterArray.__setitem__, E.EBPF.get_free_register,
                       HashGlobalVarDesc.__set__)
+        self.bincalc = E.Binary.calculate
+        if self.unguard:
+            E.Binary.calculate = _unguarded(E, self.bincalc)
         oc, og, os_, of, oh = self.saved
         notes = self.notes
         pending, temps, valueless = [], [], set()
@@ -110,6 +116,39 @@ class _Spy:
         E, H = self.E, self.H
         (E.Register.calculate, H.get_address, E.RegisterArray.__setitem__, E.EBPF.get_free_register,
          self.D.__set__) = self.saved
+        E.Binary.calculate = self.bincalc
+
+
+GUARD = re.compile(r"shift by -?\d+ in a (32|64) bit operation would not load|division by a constant zero")
+
+
+def _unguarded(E, orig):
+    """`Binary.calculate` as it would emit without its check of a constant shift count / constant divisor: the constant is
+    replaced by 1 while the real method runs and put back into the instruction it emitted (the last one with this operator).
+    Used to ask the kernel whether a refusal of the generator was justified."""
+    from contextlib import contextmanager
+    ops = (E.Opcode.LSH, E.Opcode.RSH, E.Opcode.ARSH, E.Opcode.DIV, E.Opcode.MOD)
+
+    @contextmanager
+    def calc(self, dst, long, force=False):
+        r = self.right
+        if not (self.operator in ops and getattr(r, "small_constant", False)):
+            with orig(self, dst, long, force) as res:
+                yield res
+            return
+        v, n0 = r.value, len(self.ebpf.opcodes)
+        r.value = 1
+        try:
+            with orig(self, dst, long, force) as res:
+                r.value = v
+                lst = self.ebpf.opcodes
+                k = max(j for j in range(n0, len(lst)) if lst[j] is not None and lst[j].imm == 1 and not lst[j].opcode.value & 8
+                        and lst[j].opcode.value & 0xf0 == self.operator.value & 0xf0 and lst[j].opcode.value & 7 in (4, 7))
+                lst[k] = lst[k]._replace(imm=int(v))
+                yield res
+        finally:
+            r.value = v
+    return calc
 
 
 class Refused(Exception):
@@ -123,7 +162,7 @@ def _finish(e, created, extra=()):
 
 
 # ---- (b) program families ---------------------------------------------------------------------------------
-def build_dsl(spec):
+def build_dsl(spec, unguard=False):
     """C01-style program: registers in `owned` are really assigned, every local is written first, then the
     statements run through the real operator overloads; ends with r0 = 2; exit"""
     prog = spec["prog"]
@@ -132,7 +171,7 @@ def build_dsl(spec):
     e.owners = set(b.owners_after_init)
     notes = {}
     try:
-        with _Spy(notes):
+        with _Spy(notes, unguard):
             for k in prog["owned"]:
                 if k not in e.owners:
                     e.r[k] = spec.get("init", {}).get(str(k), 3 + k)
@@ -182,6 +221,8 @@ def build_pkt(spec):
             self.pv = arg
         elif op == "iadd":
             self.pv += arg
+        elif op == "iaddarr":                      # `+=` through a packet array: packet.pI[p] += arg
+            arr(self)[p] += arg
         elif op == "access":
             self.r2 = self.pv
             self.exit(XDPExitCode.TX)
@@ -285,7 +326,7 @@ def _stmts(e, stmts, notes):
             raise ValueError(s[0])
 
 
-def build_ext(spec):
+def build_ext(spec, unguard=False):
     """programs with locals ("l"), array-map ("g") and hash-map ("h", with default) variables, ktime/prandom,
     conditions with Else, jumpIf/jump/target and subprograms whose bodies are statement lists"""
     from ebpfcat import ebpf as E
@@ -334,7 +375,7 @@ def build_ext(spec):
             setattr(type(s), a, property(lambda self, a=a: getattr(self.ebpf, a)))
     cls = type("P", (E.EBPF,), ns)
     try:
-        with fsim.fake_maps() as created, _Spy(notes):
+        with fsim.fake_maps() as created, _Spy(notes, unguard):
             e = cls(ProgType.XDP, "GPL", subprograms=subs)
             e.r0 = e.mI[e.r1 + 12]                     # a value the verifier does not know (ingress_ifindex)
             for k, v in spec.get("regs", []):
@@ -380,14 +421,52 @@ def build_lib(spec):
     return {"insns": _insns(g["insns"]), "maps": [[g["var_fd"], "array", 4, g["var_size"], 1, 2]]}
 
 
-BUILDERS = {"dsl": build_dsl, "pkt": build_pkt, "c09": build_c09, "ext": build_ext, "lib": build_lib}
+def build_tvar(spec):
+    """a FastSyncGroup with one device that does `self.data += amount` / `-= amount` on a TerminalVar linked to a process
+    variable of format `fmt` of a fake terminal (the EtherCAT packet variable `ebpfcat.ebpfcat.PacketVar`)"""
+    from ebpfcat.ebpfcat import Device, EBPFTerminal, FastSyncGroup, PacketDesc, SyncManager, TerminalVar
+    fmt, amount = spec["fmt"], spec["amount"]
+
+    class Dev(Device):
+        data = TerminalVar()
+
+        def __init__(self, data):
+            self.data = data
+
+        def program(self):
+            if spec.get("sub"):
+                self.data -= amount
+            else:
+                self.data += amount
+    try:
+        ec = progs._FakeEC()
+        T = type("T5", (EBPFTerminal,), {"v": PacketDesc(SyncManager.OUT if spec.get("out", True) else SyncManager.IN,
+                                                         spec.get("pos", 0), fmt)})
+        t = T(ec)
+        t.position, t.pdos = 7, {}
+        t.pdo_in_sz, t.pdo_out_sz, t.pdo_in_off, t.pdo_out_off = 16, 16, 0x1100, 0x1000
+        t.use_fmmu = False
+        with fsim.fake_maps() as created:
+            sg = FastSyncGroup(ec, [Dev(t.v)])
+            sg.allocate()
+            sg.assemble()
+    except Exception as ex:                       # noqa: BLE001
+        raise Refused(f"{type(ex).__name__}: {ex}")
+    (fd, args), = created
+    return {"insns": _insns(sg.opcodes), "maps": [[fd, "array", 4, int(args[2]), 1, 2]]}
 
 
-def build(case):
-    """{"kind": family, "spec": …} → {"insns", "maps"[, "notes"]}; a mutant re-builds its base first"""
+BUILDERS = {"dsl": build_dsl, "pkt": build_pkt, "c09": build_c09, "ext": build_ext, "lib": build_lib, "tvar": build_tvar}
+
+
+def build(case, unguard=False):
+    """{"kind": family, "spec": …} → {"insns", "maps"[, "notes"]}; a mutant re-builds its base first.
+    `unguard` (dsl and ext families): without the generator's own check of constant shift counts and divisors"""
     if case["kind"] == "mutant":
         b = build(case["base"])
         return {"insns": mutate(b["insns"], case["mut"]), "maps": b["maps"]}
+    if unguard:
+        return BUILDERS[case["kind"]](case["spec"], unguard=True)
     return BUILDERS[case["kind"]](case["spec"])
 
 
@@ -540,6 +619,7 @@ def _const_ok(prog, stmt):
 
 
 def gen_dsl(rng):
+    keep_bad = rng.random() < 0.3
     for _ in range(50):
         r = rng.random()
         if r < 0.5:
@@ -560,7 +640,9 @@ def gen_dsl(rng):
             stmts.append(["set", s[1], e])
         else:
             prog["stmts"] = stmts
-            if all(_const_ok(prog, s) for s in stmts):
+            # constant shift counts outside [0, W) and constant zero divisors (outside C01's precondition) are kept in three of
+            # ten programs: since the repair of Binary.calculate the generator must refuse them (or the program must load)
+            if keep_bad or all(_const_ok(prog, s) for s in stmts):
                 return {"kind": "dsl", "spec": {"prog": prog}}
     raise RuntimeError("no program")
 
@@ -569,16 +651,24 @@ def gen_pkt(rng):
     fmt = rng.choice(c07.FMTS)
     n = c07.SZ[fmt[-1].lower()]
     N = rng.choice([14, 30, 40, 63])
-    op = rng.choice(["read64", "read32", "writereg", "writeconst", "iadd", "access", "readarr", "writearr"])
-    if op in ("readarr", "writearr") and (len(fmt) == 2 or fmt.islower()):
-        op = "read64"
+    op = rng.choice(["read64", "read32", "writereg", "writeconst", "iadd", "iadd", "access", "readarr", "writearr", "iaddarr"])
+    if op in ("readarr", "writearr", "iaddarr") and (len(fmt) == 2 or fmt.islower()):
+        op = "iadd" if op == "iaddarr" else "read64"
     p = N + 1 - n if rng.random() < 0.5 else rng.randrange(0, N + 2 - n)      # half of them at the last guarded byte
     arg = None
     if op == "writeconst":
         arg = c07.wrap(fmt, rng.choice([0, 1, -1, 0x1234, 0x12345678, -0x8000, 0x123456789abcdef0]))
-    elif op == "iadd":
+    elif op in ("iadd", "iaddarr"):
         arg = rng.choice([1, 5, -1, 255, -300])
     return {"kind": "pkt", "spec": {"fmt": fmt, "op": op, "p": p, "arg": arg, "N": N, "guard": rng.choice(["min", "with"])}}
+
+
+def gen_tvar(rng):
+    """`+=` / `-=` on a process variable of a terminal inside a fast sync group"""
+    fmt = rng.choice("BHIQbhiq")
+    n = c07.SZ[fmt.lower()]
+    return {"kind": "tvar", "spec": {"fmt": fmt, "amount": rng.choice([1, 5, -1, 255, -300, 70000]), "sub": rng.random() < 0.3,
+                                     "out": rng.random() < 0.7, "pos": n * rng.randrange(0, 16 // n)}}
 
 
 def gen_c09(rng):
@@ -618,6 +708,12 @@ def gen_ext(rng):
             return leaf(vs)
         if rng.random() < 0.1:
             return ["neg", expr(vs, d - 1)]
+        if rng.random() < 0.12:                               # constant shift counts / divisors, legal or not
+            a = expr(vs, d - 1)
+            if a[0] == "c":
+                a = ["v", rng.choice(vs)[0]]
+            op = rng.choice(["<<", ">>", "//", "%"])
+            return [op, a, ["c", rng.choice([0, 1, 7, 31, 32, 33, 40, 63, 64, -1] if op in ("<<", ">>") else [0, 0, 1, 3, 10, -2])]]
         a, b = expr(vs, d - 1), expr(vs, rng.randrange(d))
         if a[0] == "c" and b[0] == "c":
             b = ["v", rng.choice(vs)[0]]
@@ -709,11 +805,18 @@ def _zero_div(insns):
     return any(op & 7 in (4, 7) and not op & 8 and op >> 4 in DIVS and imm == 0 for op, _, _, _, imm in insns)
 
 
+def _pkt_iadd(c):
+    if c["kind"] == "tvar":
+        return c["spec"]["fmt"] in "IiQq"
+    return c["kind"] == "pkt" and c["spec"]["op"] in ("iadd", "iaddarr") and c["spec"]["fmt"] in "IiQq"
+
+
+# The first five classes were known findings and are repaired in /repo (`fixed` entries in known_findings.json): their
+# predicates only name a failure now -- no `known` entry exists for them, so every hit is a VIOLATION.
 CLASSES = [
     ("const-shift-ge-width", lambda c, b: _bad_shift(b["insns"]), r"invalid shift"),
     ("const-div-zero", lambda c, b: _zero_div(b["insns"]), r"div by zero"),
-    ("pkt-atomic-add", lambda c, b: c["kind"] == "pkt" and c["spec"]["op"] == "iadd" and c["spec"]["fmt"] in "IiQq",
-     r"BPF_ATOMIC stores into R\d+ pkt"),
+    ("pkt-atomic-add", lambda c, b: _pkt_iadd(c), r"BPF_ATOMIC stores into R\d+ pkt"),
     ("hash-read-r0-live", lambda c, b: b.get("notes", {}).get("hash_r0_live", False), r"R0 invalid mem access 'scalar'"),
     ("hash-set-narrow-memory", lambda c, b: b.get("notes", {}).get("hash_set_narrow_memory", False),
      r"invalid (indirect )?(read from|access to) stack R3|invalid access to map value|R3 min value|R3 max value"),
@@ -755,9 +858,31 @@ CANDIDATES = [      # (c) candidate defects, run on every check: confirmed ones 
                                                        "stmts": [["set", ["v", "lq"], ["+", ["v", "ha"], ["v", "hc"]]]]}}),
     ("hash-into-r0", {"kind": "ext", "spec": {"vars": [_v("ha", "I", "h")], "regs": [], "subs": [],
                                                 "stmts": [["set", ["r", 0], ["+", ["v", "ha"], C(1)]]]}}),
+    ("shift40-in-64-bits", {"kind": "ext", "spec": {"vars": [_v("vq", "q")], "regs": [], "subs": [],
+                                                      "stmts": [["set", ["v", "vq"], ["<<", ["v", "vq"], C(40)]]]}, "expect": "accepted"}),
+    ("shift63-in-64-bits", {"kind": "ext", "spec": {"vars": [_v("vq", "q"), _v("vu", "Q")], "regs": [], "subs": [],
+                                                      "stmts": [["set", ["v", "vu"], [">>", ["v", "vq"], C(63)]]]}, "expect": "accepted"}),
+    ("shift31-in-32-bits", {"kind": "ext", "spec": {"vars": [_v("vi", "I")], "regs": [], "subs": [],
+                                                      "stmts": [["set", ["w", 3], ["<<", ["v", "vi"], C(31)]]]}, "expect": "accepted"}),
+    ("shift32-in-32-bits", {"kind": "ext", "spec": {"vars": [_v("vi", "I")], "regs": [], "subs": [],
+                                                      "stmts": [["set", ["v", "vi"], ["<<", ["v", "vi"], C(32)]]]}}),
+    ("shift-negative", {"kind": "ext", "spec": {"vars": [_v("vq", "q")], "regs": [], "subs": [],
+                                                  "stmts": [["set", ["v", "vq"], [">>", ["v", "vq"], C(-1)]]]}}),
+    ("shift40-by-register", {"kind": "ext", "spec": {"vars": [_v("vi", "I")], "regs": [[3, 40]], "subs": [],
+                                                       "stmts": [["set", ["v", "vi"], ["<<", ["v", "vi"], ["w", 3]]]]}, "expect": "accepted"}),
+    ("divide-by-one", {"kind": "ext", "spec": {"vars": [_v("vq", "Q")], "regs": [], "subs": [],
+                                                 "stmts": [["set", ["v", "vq"], ["//", ["v", "vq"], C(1)]]]}, "expect": "accepted"}),
     ("pkt-iadd-I", {"kind": "pkt", "spec": {"fmt": "I", "op": "iadd", "p": 4, "arg": 3, "N": 20, "guard": "min"}}),
     ("pkt-iadd-q", {"kind": "pkt", "spec": {"fmt": "q", "op": "iadd", "p": 8, "arg": -1, "N": 20, "guard": "with"}}),
     ("pkt-iadd-H", {"kind": "pkt", "spec": {"fmt": "H", "op": "iadd", "p": 4, "arg": 3, "N": 20, "guard": "min"}}),
+    ("pkt-array-iadd-I", {"kind": "pkt", "spec": {"fmt": "I", "op": "iaddarr", "p": 4, "arg": 3, "N": 20, "guard": "with"}}),
+    ("pkt-array-iadd-Q", {"kind": "pkt", "spec": {"fmt": "Q", "op": "iaddarr", "p": 8, "arg": -1, "N": 20, "guard": "min"}}),
+    ("terminal-var-iadd-I", {"kind": "tvar", "spec": {"fmt": "I", "amount": 3}}),
+    ("terminal-var-isub-q", {"kind": "tvar", "spec": {"fmt": "q", "amount": 1, "sub": True, "pos": 8}}),
+    ("hash-set-from-big-endian-local", {"kind": "ext", "spec": {"vars": [_v("lb", ">Q"), _v("ha", "Q", "h")], "regs": [], "subs": [],
+                                                                  "stmts": [["set", ["v", "ha"], ["v", "lb"]]]}}),
+    ("hash-set-from-array-var", {"kind": "ext", "spec": {"vars": [_v("gb", "B", "g"), _v("gi", "i", "g"), _v("ha", "q", "h")], "regs": [],
+                                                           "subs": [], "stmts": [["set", ["v", "ha"], ["v", "gb"]]]}}),
     ("self-read-register", {"kind": "ext", "spec": {"vars": [], "regs": [], "subs": [],
                                                       "stmts": [["set", ["r", 2], ["+", ["r", 2], C(1)]]]}}),
     ("temporary-read", {"kind": "dsl", "spec": {"prog": {"owned": [1, 10], "vars": [_v("lq")],
@@ -784,7 +909,7 @@ CANDIDATES = [      # (c) candidate defects, run on every check: confirmed ones 
 
 
 # ---- the check ---------------------------------------------------------------------------------------------------
-REGEN_OBLIGATIONS = [f"MiniV.accepts(lib:{n})" for n in LIB] + [f"MiniV.accepts(corpus:{k})" for k in ("dsl", "pkt", "c09", "ext")]
+REGEN_OBLIGATIONS = [f"MiniV.accepts(lib:{n})" for n in LIB] + [f"MiniV.accepts(corpus:{k})" for k in ("dsl", "pkt", "c09", "ext", "tvar")]
 CONSERVATIVE = ("ptr-var", "ctx", "internal")      # reject reasons of MiniV that name something it does not model
 
 
@@ -796,6 +921,44 @@ def _tail(log, n=8):
     return "\n".join(log.strip().splitlines()[-n:])
 
 
+def _bad_at(insns):
+    return [k for k, (op, _, _, _, imm) in enumerate(insns) if op & 7 in (4, 7) and not op & 8 and (
+        (op >> 4 in SHIFTS and not 0 <= imm < (64 if op & 7 == 7 else 32)) or (op >> 4 in DIVS and imm == 0))]
+
+
+def justify_refusal(ctx, case, msg, have_kernel):
+    """no over-rejection by the repaired `Binary.calculate`: a program it refuses because of a constant shift count or
+    divisor is re-generated without that check; the instruction must really be one the verifier's rule forbids, and
+    the kernel must refuse the program (unless its walk never reaches the instruction)"""
+    if case.get("expect") == "accepted":
+        ctx.require(False, "the generator refuses a program that is inside its domain and would load", case, msg, "over-rejection")
+        return
+    if not GUARD.search(msg) or case["kind"] not in ("dsl", "ext"):
+        return
+    ctx.case(case, nontrivial=True, kind="refused-by-constant-check")
+    try:
+        built = build(case, unguard=True)
+    except Refused as ex:
+        ctx.stats["refusal-not-reconstructed"] += 1           # something else is refused further on
+        if GUARD.search(str(ex)):
+            ctx.broken.append(f"the constant check of Binary.calculate could not be lifted for the refusal oracle: {ex}")
+        return
+    bad = _bad_at(built["insns"])
+    if not ctx.require(bool(bad), "the generator refuses a constant shift count / divisor although every instruction it would emit is legal",
+                       case, {"refusal": msg}, "over-rejection"):
+        return
+    if not have_kernel:
+        return
+    v, log = kload(built["insns"], built["maps"])
+    if v == "accept" and not (set(bad) & _visited_accept(built["insns"], built["maps"])):
+        ctx.stats["refusal-of-an-instruction-the-kernel-never-reaches"] += 1
+        return
+    ctx.require(v == "reject", "the generator refuses (constant shift count / divisor) a program the kernel loads", case,
+                {"refusal": msg, "insns": len(built["insns"])}, "over-rejection")
+    if v == "reject":
+        ctx.stats["refusal-justified:" + ("alu-rule" if re.search(r"invalid shift|div by zero", klass(log)[1]) else "other-rule-first")] += 1
+
+
 def check_base(ctx, case, have_kernel):
     """build one program with the real generator and put it to the real verifier (the property's own oracle)"""
     try:
@@ -804,6 +967,7 @@ def check_base(ctx, case, have_kernel):
         if case["kind"] == "lib":
             ctx.require(False, "a program of the library cannot be assembled", case, str(ex))
         ctx.stats["refused:" + case["kind"]] += 1
+        justify_refusal(ctx, case, str(ex), have_kernel)
         return None
     ctx.case(case, nontrivial=len(built["insns"]) > 4, kind=case["kind"])
     if case.get("expect") == "refused":
@@ -923,7 +1087,7 @@ def run(ctx):
         if it:
             items.append(it)
     for gen, cnt in ((gen_dsl, ctx.n(160, 3000)), (gen_pkt, ctx.n(120, 1500)), (gen_c09, ctx.n(8, 60)), (gen_ext, ctx.n(160, 3000)),
-                     (gen_unowned, ctx.n(12, 60))):
+                     (gen_unowned, ctx.n(12, 60)), (gen_tvar, ctx.n(16, 200))):
         for _ in range(cnt):
             it = check_base(ctx, gen(rng), have_kernel)
             if it:
@@ -967,6 +1131,15 @@ def run(ctx):
     ctx.extra["mini_stricter_samples"] = [{"mut": it["case"]["mut"], "base": it["case"]["base"]["kind"], "mini": it["stricter"][1]}
                                           for it in stricter[:8]]
     ctx.extra["regenerated_obligations"] = REGEN_OBLIGATIONS
+    # the verdict line names the first failing program only: one concrete replay for every failing class outside the known ones
+    known = {e["class"] for e in core.load_known(ID)}
+    per_class = {}
+    for cls, what, case, observed in ctx.failures:
+        if cls not in known and cls not in per_class:
+            per_class[cls] = core.write_replay(ctx, {"property": ID, "what": what, "case": case, "observed": observed, "class": cls})
+            print(f"FAILING-CLASS property={ID} class={cls or 'unclassified'} replay={per_class[cls]}")
+    if per_class:
+        ctx.extra["replay_per_failing_class"] = {str(k): v for k, v in per_class.items()}
 
 
 def replay(ctx, case):
@@ -996,6 +1169,7 @@ THEOREMS = [
     "Ebv.C05.stack_bounds_sound", "Ebv.C05.istep_regs",
     "Ebv.C05.step_next_pc", "Ebv.C05.step_call_pc", "Ebv.C05.step_frame",
     "Ebv.C05.calc_covered", "Ebv.C05.owners_sound", "Ebv.C05.owners_check_insufficient",
+    "Ebv.C05.wfInsn_immOk", "Ebv.C05.badImm_exact", "Ebv.C05.calc_keeps", "Ebv.C05.emitProg_imm_ok", "Ebv.C05.imm_rule_both_sides",
 ]
 TRUSTED = [
     "the Linux verifier itself is the oracle of this property and is NOT modelled: Ebv.MiniV is a hand-written model of seven of its rules "
@@ -1014,11 +1188,15 @@ ASSUMPTIONS = [
     "the program only uses initialised variables and owned registers, constants, declared maps and packet accesses inside a size guard, "
     "no raw memory access, no pointer-holding register (r1, r7, r10) as an integer operand, locals fit 512 bytes",
 ]
-RULE = ("all 15 library programs (dispatcher; bare fast groups of 4 packet layouts; fast groups with each bundled device and two mixtures) and 21 "
-        "candidate-defect programs on every run; random programs from 5 families (C01 DSL inside its precondition 160/3000, packet accesses of all "
-        "32 formats x 8 operations with half of the offsets at the last guarded byte 120/1500, C09 Dict/hash dispatchers 8/60, extended programs "
-        "with hash variables, ktime/prandom, with/Else, and/or/not/bit conditions, jumpIf, subprograms, early exits 160/3000, unowned-register "
-        "reads that must be refused 12/60); 5-40 single-instruction mutants (drop, change dst/src/off/imm, swap) of every library program and of "
+RULE = ("all 15 library programs (dispatcher; bare fast groups of 4 packet layouts; fast groups with each bundled device and two mixtures) and 34 "
+        "candidate-defect programs on every run (the witnesses of the repaired classes, and programs the repaired generator must still accept: "
+        "shift by 40/63 in 64 bits, by 31 in 32 bits, by a register, division by 1); random programs from 6 families (C01 DSL 160/3000, three "
+        "of ten with constant shift counts / divisors outside C01's precondition; packet accesses of all 32 formats x 9 operations incl. `+=` on "
+        "packet variables and packet arrays with half of the offsets at the last guarded byte 120/1500, C09 Dict/hash dispatchers 8/60, extended "
+        "programs with hash variables (read with r0 live, set from narrow variables), constant shifts/divisions legal or not, ktime/prandom, "
+        "with/Else, and/or/not/bit conditions, jumpIf, subprograms, early exits 160/3000, unowned-register reads that must be refused 12/60, "
+        "`+=`/`-=` on process variables of a terminal in a fast sync group 16/200); every refusal by the constant check is re-generated without "
+        "the check and put to the kernel; 5-40 single-instruction mutants (drop, change dst/src/off/imm, swap) of every library program and of "
         "a sample of the others; non-trivial = more than 4 instructions / every mutant")
 LEVEL_TEXT = ("PARTIAL. The oracle is the Linux verifier, which is not modelled and about which nothing is proved. Proved (Lean 4, all programs / all "
               "executions): for the abstract interpreter MiniV.accepts (seven verifier rules), acceptance implies forward in-range jumps that avoid "
@@ -1027,12 +1205,16 @@ LEVEL_TEXT = ("PARTIAL. The oracle is the Linux verifier, which is not modelled 
               "after a call (reg_init_sound, exit_has_r0), and that every load/store through a register tracked as frame pointer stays inside the 512-byte "
               "frame (stack_bounds_sound); for the generator model Gen (C01 fragment) every register an emitted instruction reads is "
               "initially owned or written earlier (owners_sound) provided the expression's leaf registers have values, and that proviso is necessary "
-              "(owners_check_insufficient). Checked on every run, not proved: the real kernel accepts every regenerated program (property oracle), "
+              "(owners_check_insufficient); for the same generator model, which refuses constant shift counts outside the width of the operation "
+              "and constant zero divisors like the repaired Binary.calculate, no accepted program contains an instruction that the immediate part "
+              "of rule (7) forbids (emitProg_imm_ok, calc_keeps), that part is implied by MiniV's rule (wfInsn_immOk), and the generator's check "
+              "is exactly the rule, so it refuses nothing the rule allows (badImm_exact). Checked on every run, not proved: the real kernel accepts every regenerated program (property oracle), "
               "MiniV accepts them too (regenerated obligations) and agrees with the kernel on mutants for the modelled rules.")
 LEVEL_NOTE = ("partial by nature: the kernel's full rule set (bounds tracking, path sensitivity, pruning, helper prototypes per program type, alignment, "
               "complexity, version differences) is outside; the initialised-bytes part of rule (2) and rules (3),(4),(6) of MiniV are executable and differentially tested but have "
               "no soundness theorem against the ISA semantics; the link generator -> MiniV.accepts for whole programs (EmitAccepts) is stated, not "
-              "proved; trusted: Lean kernel + standard axioms, hand model MiniV, kern.py; known findings: findings/C05.json")
+              "proved; trusted: Lean kernel + standard axioms, hand model MiniV, kern.py; open known findings: the two owner-without-value "
+              "classes (findings/C05.json); five former classes are repaired in /repo (fixed entries, FIXB_repo_*.diff) and are violations again")
 TECHNIQUE = "Lean 4 proof about a verifier-rule model + differential runs against the real verifier (bpf(2) in the sandbox)"
 DESIGN_REF = "§4 C05"
 LEANCHECKER = True
